@@ -182,9 +182,9 @@ def make(seed, n_pairs):
         gkind = None
         if group:
             # groups over T plus two fixed helper traits; edit the group instead of the trait
-            gkind = rng.choice(["group-same", "group-add-optional", "group-remove-optional", "group-declared-order", "group-mandatory-swap", "group-member-edited"])
+            gkind = rng.choice(["group-same", "group-add-optional", "group-remove-optional", "group-declared-order", "group-mandatory-swap", "group-member-edited", "group-optional-member-edited", "group-optional-member-edited"])
             helper = "#[cglue_trait]\npub trait H1 { fn h1(&self) -> u32; }\n#[cglue_trait]\npub trait H2 { fn h2(&self, x: u64); }\n#[cglue_trait]\npub trait H3 { fn h3(&mut self) -> u8; }\n"
-            ga = helper + "cglue_trait_group!(G, T, { H1, H2 });\n"
+            ga = helper + ("cglue_trait_group!(G, H1, { T, H2 });\n" if gkind == "group-optional-member-edited" else "cglue_trait_group!(G, T, { H1, H2 });\n")
             gb = helper + {
                 "group-same": "cglue_trait_group!(G, T, { H1, H2 });\n",
                 "group-add-optional": "cglue_trait_group!(G, T, { H1, H2, H3 });\n",
@@ -192,13 +192,14 @@ def make(seed, n_pairs):
                 "group-declared-order": "cglue_trait_group!(G, T, { H2, H1 });\n",
                 "group-mandatory-swap": "cglue_trait_group!(G, H1, { T, H2 });\n",
                 "group-member-edited": "cglue_trait_group!(G, T, { H1, H2 });\n",
+                "group-optional-member-edited": "cglue_trait_group!(G, H1, { T, H2 });\n",
             }[gkind]
-            if gkind != "group-member-edited":
+            if gkind not in ("group-member-edited", "group-optional-member-edited"):
                 b_src = a_src
                 expect = "same" if gkind in ("group-same", "group-declared-order") else "differs"
                 kind = gkind
             else:
-                kind = "group-member-" + kind
+                kind = ("group-optional-member-" if gkind == "group-optional-member-edited" else "group-member-") + kind
         body.append(f"pub mod a{k} {{ use super::*;\n{a_src}{ga}}}")
         body.append(f"pub mod b{k} {{ use super::*;\n{b_src}{gb}}}")
         ty = "GBox<'static>" if group else "TBox<'static>"
